@@ -314,9 +314,12 @@ CHECKS["C08"]["text"] = (
     "exception is ProvException and two records of one group hold unequal values under one formal attribute; and conflict "
     "always raises (C08_conflict_always_raises): in every reachable container, if any two records of one group - neither "
     "need be the first, the first need not hold the attribute - hold unequal values under a formal attribute other than "
-    "prov:entity, unified() does not return but raises ProvException (or the container is outside the model's domain). "
-    "prov:entity (collection members) is excluded by the statement: memberships disagreeing on the member only are merged "
-    "(known finding C08-F1). All of it is tied to the code per run by the correspondence "
+    "prov:entity, unified() does not return but raises ProvException (or the container is outside the model's domain); "
+    "the same under any formal attribute, prov:entity included, in groups none of whose records names prov:collection "
+    "(C08_conflict_always_raises_any_attribute: generations, usages, ... naming different entities); and "
+    "ProvDocument.unified() returns only when no container of the document holds such a conflict "
+    "(C08_document_returns_no_conflict). Collection members are excluded by the statements: memberships disagreeing on "
+    "the member only are merged (known finding C08-F1). All of it is tied to the code per run by the correspondence "
     "(model vs implementation on identifier-reuse programs) and an independent merge-specification oracle on the "
     "implementation, which also checks that the result shares no bundle object with the source and that writing to the "
     "result leaves the source alone.")
